@@ -113,3 +113,12 @@ Theorem C09_struct_tail_refuted :
   Some [1; 2; 3; 4; 5; 6; 7; 8; 9; 10; 11; 12; 13; 14; 15; 16; 0xA5; 0xA5; 0xA5; 0xA5].
 Proof. exact struct18_tail_lost_refuted. Qed.
 Print Assumptions C09_struct_tail_refuted.
+
+(* an argument without format ('long int' by the manual) whose value is 4294967295 is shown as "(-1)" *)
+Theorem C09_auto_neg32_refuted :
+  let sp := Sp 1 FAuto 8 TIndex 0 in
+  let inp := {| regs := [0xffffffff; 0; 0; 0; 0; 0]; xmm := []; stk := []; rets := []; strs := []; wrds := [] |} in
+  show_args [] [sp] (payload (run 0 inp false [sp])) = [40; 45; 49; 41] /\
+  ok_args [(sp, AInt 0xffffffff)] (show_args [] [sp] (payload (run 0 inp false [sp]))) = false.
+Proof. exact auto_neg32_refuted. Qed.
+Print Assumptions C09_auto_neg32_refuted.
